@@ -426,6 +426,8 @@ def run_case(scn, ctx):
             ctx.event("verbose_command")
         if got[1] != ref[1]:
             tag = scn["outcome"].get("tag") if scn["outcome"]["kind"] == "tag" else None
+            if scn["outcome"]["kind"] == "seq" and any(x in ("newer", "late_newer") for x in scn["outcome"]["seq"]):
+                tag = "99.0"  # (some request of the scripted sequence is answered with a newer final release)
             ok = got[1] == ref[1] + NOTICE + "\n"
             require(ok, "stdout", "%s: stdout %r, the command's own output is %r" % (label, strip(got[1])[-300:], strip(ref[1])[-300:]))
             require(isinstance(tag, str) and is_newer_final(tag), "false-notice", "%s: update notice printed for version %r which is not a newer final release" % (label, tag))
